@@ -1,6 +1,6 @@
 (* GENERATED on every run by engines/cli_eng.py from crux_cli::codegen::verif::verif_run(crux_kv): do not edit. *)
 From Coq Require Import List String NArith.
-From Crux Require Import Cli.Format.
+From Crux Require Import Cli.Format Cli.Pipeline.
 Import ListNotations.
 Open Scope string_scope.
 
@@ -60,5 +60,7 @@ Definition f_root : list item := [i4; i28].
 Definition f_field : edges := [(i2, i0); (i2, i1); (i6, i5); (i10, i9); (i13, i12); (i16, i15); (i19, i17); (i19, i18); (i21, i20); (i23, i22); (i26, i24); (i26, i25); (i31, i29); (i33, i32); (i35, i34); (i37, i36); (i39, i38); (i41, i40); (i44, i42); (i44, i43); (i46, i45)].
 Definition f_variant : edges := [(i3, i6); (i3, i7); (i3, i8); (i3, i10); (i4, i16); (i4, i19); (i4, i21); (i4, i23); (i4, i26); (i14, i11); (i14, i13); (i28, i31); (i28, i33); (i30, i35); (i30, i37); (i30, i39); (i30, i41); (i30, i44)].
 Definition f_type : edges := [(i27, i28); (i29, i30); (i32, i3); (i34, i14); (i36, i14); (i38, i14); (i45, i4); (i47, i4); (i48, i46)].
+Definition the_dump : dump := mkDump items f_root f_field f_variant f_type.
+Definition crates : list string := ["crux_kv"].
 Definition real_containers : list (string * container) := [("KeyValueError", (CEnum [(0%N, ("io", (VStruct [("message", (FPrim PStr))]))); (1%N, ("timeout", VUnit)); (2%N, ("cursorNotFound", VUnit)); (3%N, ("other", (VStruct [("message", (FPrim PStr))])))])); ("KeyValueOperation", (CEnum [(0%N, ("Get", (VStruct [("key", (FPrim PStr))]))); (1%N, ("Set", (VStruct [("key", (FPrim PStr)); ("value", (FPrim PBytes))]))); (2%N, ("Delete", (VStruct [("key", (FPrim PStr))]))); (3%N, ("Exists", (VStruct [("key", (FPrim PStr))]))); (4%N, ("ListKeys", (VStruct [("prefix", (FPrim PStr)); ("cursor", (FPrim PU64))])))])); ("KeyValueResponse", (CEnum [(0%N, ("Get", (VStruct [("value", (FTypeName "Value"))]))); (1%N, ("Set", (VStruct [("previous", (FTypeName "Value"))]))); (2%N, ("Delete", (VStruct [("previous", (FTypeName "Value"))]))); (3%N, ("Exists", (VStruct [("is_present", (FPrim PBool))]))); (4%N, ("ListKeys", (VStruct [("keys", (FSeq (FPrim PStr))); ("next_cursor", (FPrim PU64))])))])); ("KeyValueResult", (CEnum [(0%N, ("Ok", (VStruct [("response", (FTypeName "KeyValueResponse"))]))); (1%N, ("Err", (VStruct [("error", (FTypeName "KeyValueError"))])))])); ("Request", (CStruct [("id", (FPrim PU32)); ("effect", (FTypeName "Effect"))])); ("Value", (CEnum [(0%N, ("None", VUnit)); (1%N, ("Bytes", (VNewType (FPrim PBytes))))]))].
 Definition real_registry : registry := [("KeyValueError", (CEnum [(0%N, ("io", (VStruct [("message", (FPrim PStr))]))); (1%N, ("timeout", VUnit)); (2%N, ("cursorNotFound", VUnit)); (3%N, ("other", (VStruct [("message", (FPrim PStr))])))])); ("KeyValueOperation", (CEnum [(0%N, ("Get", (VStruct [("key", (FPrim PStr))]))); (1%N, ("Set", (VStruct [("key", (FPrim PStr)); ("value", (FPrim PBytes))]))); (2%N, ("Delete", (VStruct [("key", (FPrim PStr))]))); (3%N, ("Exists", (VStruct [("key", (FPrim PStr))]))); (4%N, ("ListKeys", (VStruct [("prefix", (FPrim PStr)); ("cursor", (FPrim PU64))])))])); ("KeyValueResponse", (CEnum [(0%N, ("Get", (VStruct [("value", (FTypeName "Value"))]))); (1%N, ("Set", (VStruct [("previous", (FTypeName "Value"))]))); (2%N, ("Delete", (VStruct [("previous", (FTypeName "Value"))]))); (3%N, ("Exists", (VStruct [("is_present", (FPrim PBool))]))); (4%N, ("ListKeys", (VStruct [("keys", (FSeq (FPrim PStr))); ("next_cursor", (FPrim PU64))])))])); ("KeyValueResult", (CEnum [(0%N, ("Ok", (VStruct [("response", (FTypeName "KeyValueResponse"))]))); (1%N, ("Err", (VStruct [("error", (FTypeName "KeyValueError"))])))])); ("Request", (CStruct [("id", (FPrim PU32)); ("effect", (FTypeName "Effect"))])); ("Value", (CEnum [(0%N, ("None", VUnit)); (1%N, ("Bytes", (VNewType (FPrim PBytes))))]))].
